@@ -528,10 +528,10 @@ def main(rep, ws, tier):
                 a, b = off.args
                 for x, y in ((a, b), (b, a)):
                     if y.op == 'const' and y.attr[1] == 4 and x.op == 'zext' and x.args[0].op == 'arg': idx_ok = True
-            base_ok = memn.op == 'mem0' and str(memn.attr[0]).startswith('sym')
+            base_ok = memn.op == 'mem0' and memn.attr[0] == 'sym'
             ptr_src = None
             if base_ok:
-                pn = T._nodes[int(memn.attr[0][3:])]
+                pn = memn.args[0]
                 ptr_src = pn
                 base_ok = pn.op == 'in' and pn.attr[0] == 'g:imath_half_to_float_table' and pn.attr[1] == 0
             ok = idx_ok and base_ok
